@@ -3,7 +3,7 @@ whether the CLI binary is needed, the non-triviality rule that the harness appli
 
 PROPS = {
     "C03": {
-        "extra_imports": ["Gofasta.Props.Cols"],
+        "extra_imports": ["Gofasta.Props.ColsSnps"],
         "extra_theorems": ["Gofasta.Props.Cols.snps_append", "Gofasta.Props.Cols.snpsRowEnc_cons"],
         "cli": True,
         "streams": {"C03": (300, 4000)},
@@ -36,7 +36,7 @@ PROPS = {
                 "panic recovery and a time-out; non-trivial = corrupted, multi-record or CRLF; distinct = distinct byte stream",
     },
     "C06": {
-        "extra_imports": ["Gofasta.Props.Cols", "Gofasta.Props.Cli", "Gofasta.Lemmas.ClosestOrder"],
+        "extra_imports": ["Gofasta.Props.ColsClosest", "Gofasta.Props.Cli", "Gofasta.Lemmas.ClosestOrder"],
         "extra_theorems": ["Gofasta.Props.Cols.closest_append", "Gofasta.Props.Cols.snp_col", "Gofasta.Props.Cols.raw_col", "Gofasta.Props.Cols.tn93_col", "Gofasta.Props.Cli.closest_defaults", "Gofasta.Props.Cli.wiring", "Gofasta.Lemmas.ClosestOrder.topK_spec_on", "Gofasta.Lemmas.ClosestOrder.hitLt_swoOn_nat", "Gofasta.Lemmas.ClosestOrder.hitLt_swoOn_rat",
                            "Gofasta.Lemmas.ClosestOrder.closestN_exact", "Gofasta.Lemmas.ClosestOrder.closest_exact", "Gofasta.Lemmas.ClosestOrder.closestN_exact_characterised",
                            "Gofasta.Lemmas.ClosestOrder.closestN_exact_eq_spec", "Gofasta.Lemmas.ClosestOrder.hitLt_not_swo"],
@@ -51,7 +51,7 @@ PROPS = {
                 "non-trivial = the target set contains a constructed tie or an undefined distance",
     },
     "C07": {
-        "extra_imports": ["Gofasta.Props.Cols"],
+        "extra_imports": ["Gofasta.Props.ColsClosest"],
         "extra_theorems": ["Gofasta.Props.Cols.snp_col", "Gofasta.Props.Cols.raw_col", "Gofasta.Props.Cols.tn93_col", "Gofasta.Props.Cols.snpCount_cons", "Gofasta.Props.Cols.rawCounts_cons", "Gofasta.Props.Cols.tnCounts_cons"],
         "cli": True,
         "streams": {"C07": (400, 8000)},
@@ -62,7 +62,7 @@ PROPS = {
                 "tn93 within 1e-9 of the same expression evaluated on the definitional counts); non-trivial as C06",
     },
     "C10": {
-        "extra_imports": ["Gofasta.Props.Cols"],
+        "extra_imports": ["Gofasta.Props.ColsUpdown"],
         "extra_theorems": ["Gofasta.Props.Cols.updown_append"],
         "cli": True,
         "streams": {"C10": (600, 10000)},
@@ -73,7 +73,7 @@ PROPS = {
                 "non-trivial = some row has a non-A/C/G/T column",
     },
     "C04": {
-        "extra_imports": ["Gofasta.Props.Cols", "Gofasta.Props.Cli", "Gofasta.Lemmas.VariantsOrder"],
+        "extra_imports": ["Gofasta.Props.ColsVariants", "Gofasta.Props.Cli", "Gofasta.Lemmas.VariantsOrder"],
         "extra_theorems": ["Gofasta.Props.Cols.nucs_append", "Gofasta.Props.Cols.aas_append", "Gofasta.Props.Cli.variant_defaults", "Gofasta.Props.Cli.wiring", "Gofasta.Lemmas.VariantsOrder.variantLt_swo", "Gofasta.Lemmas.VariantsOrder.tied_variantLt", "Gofasta.Lemmas.VariantsOrder.indels_sort_eq", "Gofasta.Lemmas.VariantsOrder.specAll_no_del0", "Gofasta.Lemmas.VariantsOrder.adj_sort_eq_sort_all_iff", "Gofasta.Lemmas.VariantsOrder.model_eq", "Gofasta.Lemmas.VariantsOrder.old_variants_list_eq_iff", "Gofasta.Lemmas.VariantsOrder.dedupRun_sorted", "Gofasta.Lemmas.VariantsOrder.run_sort_eq_sort_all", "Gofasta.Lemmas.VariantsOrder.variants_nodup", "Gofasta.Lemmas.VariantsOrder.variants_sorted", "Gofasta.Lemmas.VariantsOrder.old_eq_new_iff", "Gofasta.Lemmas.VariantsOrder.variants_list_eq_of_nodup", "Gofasta.Lemmas.VariantsOrder.variants_list_eq", "Gofasta.Lemmas.VariantsOrder.variants_list_eq_of_le_one", "Gofasta.Lemmas.VariantsOrder.dedupAll_variants_eq", "Gofasta.Lemmas.VariantsOrder.variants_list_eq_iff_nodup", "Gofasta.Lemmas.VariantsOrder.cx_fixed", "Gofasta.Lemmas.VariantsOrder.cx2_fixed", "Gofasta.Lemmas.VariantsOrder.old_dedup_differs", "Gofasta.Lemmas.VariantsOrder.old_cx_differs", "Gofasta.Lemmas.VariantsOrder.cx_wellformed"],
         "cli": True,
         "streams": {"C04": (400, 6000)},
@@ -85,7 +85,7 @@ PROPS = {
                 "variants.Variants in-process; non-trivial = at least one coding feature or a gapped reference row",
     },
     "C05": {
-        "extra_imports": ["Gofasta.Props.Cols", "Gofasta.Lemmas.SamIndels"],
+        "extra_imports": ["Gofasta.Props.ColsSam", "Gofasta.Lemmas.SamIndels"],
         "extra_theorems": ["Gofasta.Props.Cols.sam_skip", "Gofasta.Lemmas.SamIndels.sam_ins", "Gofasta.Lemmas.SamIndels.sam_del", "Gofasta.Lemmas.SamIndels.sam_del_mem", "Gofasta.Lemmas.SamIndels.single_ins_op_exact", "Gofasta.Lemmas.SamIndels.single_del_op", "Gofasta.Lemmas.SamIndels.ins_spec_all", "Gofasta.Lemmas.SamIndels.del_spec_all"],
         "cli": True,
         "streams": {"C05": (500, 8000)},
@@ -115,7 +115,7 @@ PROPS = {
     },
     "C01": {
         "cli": True,
-        "extra_imports": ["Gofasta.Props.Cols", "Gofasta.Lemmas.SamWalk", "Gofasta.Lemmas.SamFlatten", "Gofasta.Lemmas.SamRoundTrip", "Gofasta.Lemmas.FromBytes"],
+        "extra_imports": ["Gofasta.Props.ColsSam", "Gofasta.Lemmas.SamWalk", "Gofasta.Lemmas.SamFlatten", "Gofasta.Lemmas.SamRoundTrip", "Gofasta.Lemmas.FromBytes"],
         "extra_theorems": ["Gofasta.Props.Cols.sam_skip", "Gofasta.Lemmas.walk_cov", "Gofasta.Lemmas.walk_row", "Gofasta.Lemmas.covList_ge", "Gofasta.Lemmas.covList_lt",
                            "Gofasta.Lemmas.single_record_row", "Gofasta.Lemmas.swapNs_starRow", "Gofasta.Lemmas.swapGaps_starRow",
                            "Gofasta.Lemmas.flatten_column", "Gofasta.Lemmas.seqFromBlock_starRow", "Gofasta.Lemmas.query_row",
@@ -130,7 +130,7 @@ PROPS = {
     },
     "C02": {
         "cli": True,
-        "extra_imports": ["Gofasta.Props.Cols", "Gofasta.Lemmas.PairSingle", "Gofasta.Lemmas.PairSpec", "Gofasta.Lemmas.PairMulti", "Gofasta.Lemmas.PairSkipIns", "Gofasta.Lemmas.FromBytes"],
+        "extra_imports": ["Gofasta.Props.ColsSam", "Gofasta.Lemmas.PairSingle", "Gofasta.Lemmas.PairSpec", "Gofasta.Lemmas.PairMulti", "Gofasta.Lemmas.PairSkipIns", "Gofasta.Lemmas.FromBytes"],
         "extra_theorems": ["Gofasta.Props.Cols.sam_skip", "Gofasta.Lemmas.FromBytes.toPairAlign_from_bytes", "Gofasta.Lemmas.FromBytes.toPairAlign_keepIns_from_bytes", "Gofasta.Lemmas.PairSkipIns.toPairAlign_spec", "Gofasta.Lemmas.PairSkipIns.pairOfBlock_skipIns", "Gofasta.Lemmas.PairSkipIns.walkWithRef_noIns_query", "Gofasta.Lemmas.PairMulti.blockToSeqPair_eq_specPair", "Gofasta.Lemmas.PairMulti.multi_ref_lossless", "Gofasta.Lemmas.PairMulti.multi_lengths",
                            "Gofasta.Lemmas.PairMulti.multi_gap_count", "Gofasta.Lemmas.PairMulti.multi_skip_insertions", "Gofasta.Lemmas.PairMulti.toPairAlign_keepIns_spec",
                            "Gofasta.Lemmas.PairSpec.specPair_lossless", "Gofasta.Lemmas.PairSpec.specPair_skip_insertions",
@@ -154,7 +154,7 @@ PROPS = {
                 "written by the real sam.ToPairAlign; a third (queries without insertions): vs variants.Variants on reference + the real toMultiAlign --pad rows",
     },
     "C15": {
-        "extra_imports": ["Gofasta.Props.Cols", "Gofasta.Props.Cli", "Gofasta.Lemmas.FastaWrite"],
+        "extra_imports": ["Gofasta.Props.ColsSam", "Gofasta.Props.ColsVariants", "Gofasta.Props.Cli", "Gofasta.Lemmas.FastaWrite"],
         "extra_theorems": ["Gofasta.Props.Cols.checkArgs_translated", "Gofasta.Props.Cols.window_filter", "Gofasta.Props.Cols.agg_window_filter", "Gofasta.Props.Cli.window_defaults", "Gofasta.Props.Cli.wiring", "Gofasta.Props.Cli.no_option_twice", "Gofasta.Lemmas.FastaWrite.written_reads_back", "Gofasta.Lemmas.FastaWrite.file_bytes"],
         "streams": {"C15v": (300, 5000), "C15toma": (300, 5000), "C15topa": (300, 5000)},
         "thorough_seeds": 3,
@@ -194,8 +194,8 @@ PROPS = {
                 "encoding/csv + getAmbArr + Atoi (ok / error / panic)",
     },
     "C12": {
-        "extra_imports": ["Gofasta.Lemmas.AggVariants", "Gofasta.Props.Pipes", "Gofasta.Lemmas.SchedProofs", "Gofasta.Lemmas.SchedChainProofs"],
-        "extra_theorems": ["Gofasta.Lemmas.SchedChain.reach_inv", "Gofasta.Lemmas.SchedChain.chain_success_means_complete", "Gofasta.Lemmas.SchedChain.chain_reorder_writer_in_order", "Gofasta.Lemmas.SchedChain.chain_commutative_writer", "Gofasta.Lemmas.SchedChain.chain_no_deadlock", "Gofasta.Lemmas.SchedChain.chain_terminates", "Gofasta.Lemmas.SchedChain.chain_maximal_run_returned", "Gofasta.Lemmas.SchedChain.chain_error_reported", "Gofasta.Lemmas.SchedChain.chain_maximal_run_error", "Gofasta.Lemmas.SchedChain.chain_error_has_source", "Gofasta.Lemmas.SchedChain.chain_no_spurious_error", "Gofasta.Lemmas.SchedChain.chain_maximal_run_success", "Gofasta.Lemmas.SchedChain.chain_no_panic", "Gofasta.Lemmas.SchedChain.chain_no_send_on_closed", "Gofasta.Lemmas.SchedChain.chain_no_sender_on_closed", "Gofasta.Lemmas.SchedChain.chain_buffers_bounded", "Gofasta.Lemmas.SchedChain.chain_closed_prefix", "Gofasta.Lemmas.SchedChain.runSchedule_returns", "Gofasta.Lemmas.SchedChain.OnePool.chain_one_pool_agrees", "Gofasta.Lemmas.SchedChain.OnePool.chain_one_pool_outcomes",
+        "extra_imports": ["Gofasta.Lemmas.SchedCommands", "Gofasta.Lemmas.AggVariants", "Gofasta.Props.Pipes", "Gofasta.Lemmas.SchedProofs", "Gofasta.Lemmas.SchedChainProofs"],
+        "extra_theorems": ["Gofasta.Lemmas.SchedCommands.text_writer_every_schedule", "Gofasta.Lemmas.SchedCommands.chain_text_writer_every_schedule", "Gofasta.Lemmas.SchedCommands.snps_every_schedule", "Gofasta.Lemmas.SchedCommands.snps_aggregate_every_schedule", "Gofasta.Lemmas.SchedCommands.updown_list_every_schedule", "Gofasta.Lemmas.SchedCommands.toma_every_schedule", "Gofasta.Lemmas.SchedCommands.variants_every_schedule", "Gofasta.Lemmas.SchedCommands.variants_aggregate_every_schedule", "Gofasta.Lemmas.SchedCommands.variants_aggregate_model_every_schedule", "Gofasta.Lemmas.SchedCommands.sam_variants_every_schedule", "Gofasta.Lemmas.SchedCommands.sam_variants_command_every_schedule", "Gofasta.Lemmas.SchedCommands.sam_variants_aggregate_every_schedule", "Gofasta.Lemmas.SchedCommands.sam_variants_every_schedule_rows", "Gofasta.Lemmas.SchedCommands.snps_maximal_run", "Gofasta.Lemmas.SchedCommands.snps_aggregate_maximal_run", "Gofasta.Lemmas.SchedCommands.updown_list_maximal_run", "Gofasta.Lemmas.SchedCommands.toma_maximal_run", "Gofasta.Lemmas.SchedCommands.variants_maximal_run", "Gofasta.Lemmas.SchedCommands.sam_variants_maximal_run", "Gofasta.Lemmas.SchedChain.reach_inv", "Gofasta.Lemmas.SchedChain.chain_success_means_complete", "Gofasta.Lemmas.SchedChain.chain_reorder_writer_in_order", "Gofasta.Lemmas.SchedChain.chain_commutative_writer", "Gofasta.Lemmas.SchedChain.chain_no_deadlock", "Gofasta.Lemmas.SchedChain.chain_terminates", "Gofasta.Lemmas.SchedChain.chain_maximal_run_returned", "Gofasta.Lemmas.SchedChain.chain_error_reported", "Gofasta.Lemmas.SchedChain.chain_maximal_run_error", "Gofasta.Lemmas.SchedChain.chain_error_has_source", "Gofasta.Lemmas.SchedChain.chain_no_spurious_error", "Gofasta.Lemmas.SchedChain.chain_maximal_run_success", "Gofasta.Lemmas.SchedChain.chain_no_panic", "Gofasta.Lemmas.SchedChain.chain_no_send_on_closed", "Gofasta.Lemmas.SchedChain.chain_no_sender_on_closed", "Gofasta.Lemmas.SchedChain.chain_buffers_bounded", "Gofasta.Lemmas.SchedChain.chain_closed_prefix", "Gofasta.Lemmas.SchedChain.runSchedule_returns", "Gofasta.Lemmas.SchedChain.OnePool.chain_one_pool_agrees", "Gofasta.Lemmas.SchedChain.OnePool.chain_one_pool_outcomes",
                            "Gofasta.Lemmas.Sched.reach_inv", "Gofasta.Lemmas.Sched.success_means_complete", "Gofasta.Lemmas.Sched.reorder_writer_in_order", "Gofasta.Lemmas.Sched.commutative_writer", "Gofasta.Lemmas.Sched.counting_writer", "Gofasta.Lemmas.Sched.no_deadlock", "Gofasta.Lemmas.Sched.maximal_run_returned", "Gofasta.Lemmas.Sched.terminates", "Gofasta.Lemmas.Sched.run_length_le", "Gofasta.Lemmas.Sched.runSchedule_returns", "Gofasta.Lemmas.Sched.error_reported", "Gofasta.Lemmas.Sched.maximal_run_error", "Gofasta.Lemmas.Sched.error_has_source", "Gofasta.Lemmas.Sched.no_spurious_error", "Gofasta.Lemmas.Sched.maximal_run_success", "Gofasta.Lemmas.Sched.no_panic", "Gofasta.Lemmas.Sched.no_send_on_closed", "Gofasta.Lemmas.Sched.close_once", "Gofasta.Lemmas.Sched.buffers_bounded",
                            "Gofasta.Props.Pipes.drivers_conform", "Gofasta.Props.Pipes.inner_error_arms", "Gofasta.Lemmas.AggVariants.variants_aggregate_model_deterministic", "Gofasta.Lemmas.AggVariants.variants_aggregate_any_order",
                            "Gofasta.Lemmas.AggVariants.aggLt_not_swo", "Gofasta.Lemmas.AggVariants.tie_hypothesis_needed"],
@@ -214,8 +214,8 @@ PROPS = {
                 "capacities of the regenerated driver shape",
     },
     "C18": {
-        "extra_imports": ["Gofasta.Props.Cols", "Gofasta.Lemmas.Refusals", "Gofasta.Props.Cli", "Gofasta.Props.Pipes", "Gofasta.Lemmas.SchedProofs", "Gofasta.Lemmas.SchedChainProofs"],
-        "extra_theorems": ["Gofasta.Props.Cols.checkArgs_translated", "Gofasta.Lemmas.SchedChain.chain_error_reported", "Gofasta.Lemmas.SchedChain.chain_no_deadlock", "Gofasta.Lemmas.Sched.error_reported", "Gofasta.Lemmas.Sched.maximal_run_error", "Gofasta.Lemmas.Sched.no_deadlock", "Gofasta.Props.Pipes.drivers_conform", "Gofasta.Lemmas.Refusals.fails_unequal_rows", "Gofasta.Lemmas.Refusals.readFasta_unequal_rows", "Gofasta.Lemmas.Refusals.readFasta_ok_widths", "Gofasta.Lemmas.Refusals.trailing_header_refused", "Gofasta.Lemmas.Refusals.trailing_header_commands_refused", "Gofasta.Lemmas.Refusals.fails_trailing_header", "Gofasta.Lemmas.Refusals.fails_single_header", "Gofasta.Lemmas.Refusals.snpsOnText_error_iff", "Gofasta.Lemmas.Refusals.listOnText_error_iff", "Gofasta.Lemmas.Refusals.trOnText_error_iff", "Gofasta.Lemmas.Refusals.closestOnText_error_iff", "Gofasta.Lemmas.Refusals.varCommand_error_iff", "Gofasta.Lemmas.Refusals.snpsOnText_valid", "Gofasta.Lemmas.Refusals.listOnText_valid", "Gofasta.Lemmas.Refusals.trOnText_valid", "Gofasta.Lemmas.Refusals.checkArgs_none_iff", "Gofasta.Props.Cli.topranking_defaults", "Gofasta.Props.Cli.window_defaults", "Gofasta.Props.Cli.wiring"],
+        "extra_imports": ["Gofasta.Lemmas.SchedCommands", "Gofasta.Props.ColsSam", "Gofasta.Lemmas.Refusals", "Gofasta.Props.Cli", "Gofasta.Props.Pipes", "Gofasta.Lemmas.SchedProofs", "Gofasta.Lemmas.SchedChainProofs"],
+        "extra_theorems": ["Gofasta.Lemmas.SchedCommands.snps_width_error_reported", "Gofasta.Lemmas.SchedCommands.snps_aggregate_width_error_reported", "Gofasta.Lemmas.SchedCommands.updown_list_width_error_reported", "Gofasta.Lemmas.SchedCommands.variants_width_error_reported", "Gofasta.Lemmas.SchedCommands.variants_aggregate_width_error_reported", "Gofasta.Lemmas.SchedCommands.toma_read_error_reported", "Gofasta.Lemmas.SchedCommands.sam_variants_read_error_reported", "Gofasta.Lemmas.SchedCommands.snps_outcome", "Gofasta.Lemmas.SchedCommands.updown_list_outcome", "Gofasta.Lemmas.SchedCommands.variants_outcome", "Gofasta.Props.Cols.checkArgs_translated", "Gofasta.Lemmas.SchedChain.chain_error_reported", "Gofasta.Lemmas.SchedChain.chain_no_deadlock", "Gofasta.Lemmas.Sched.error_reported", "Gofasta.Lemmas.Sched.maximal_run_error", "Gofasta.Lemmas.Sched.no_deadlock", "Gofasta.Props.Pipes.drivers_conform", "Gofasta.Lemmas.Refusals.fails_unequal_rows", "Gofasta.Lemmas.Refusals.readFasta_unequal_rows", "Gofasta.Lemmas.Refusals.readFasta_ok_widths", "Gofasta.Lemmas.Refusals.trailing_header_refused", "Gofasta.Lemmas.Refusals.trailing_header_commands_refused", "Gofasta.Lemmas.Refusals.fails_trailing_header", "Gofasta.Lemmas.Refusals.fails_single_header", "Gofasta.Lemmas.Refusals.snpsOnText_error_iff", "Gofasta.Lemmas.Refusals.listOnText_error_iff", "Gofasta.Lemmas.Refusals.trOnText_error_iff", "Gofasta.Lemmas.Refusals.closestOnText_error_iff", "Gofasta.Lemmas.Refusals.varCommand_error_iff", "Gofasta.Lemmas.Refusals.snpsOnText_valid", "Gofasta.Lemmas.Refusals.listOnText_valid", "Gofasta.Lemmas.Refusals.trOnText_valid", "Gofasta.Lemmas.Refusals.checkArgs_none_iff", "Gofasta.Props.Cli.topranking_defaults", "Gofasta.Props.Cli.window_defaults", "Gofasta.Props.Cli.wiring"],
         "streams": {"C18": (500, 4000)},
         "thorough_seeds": 3,
         "cli": True,
